@@ -843,6 +843,21 @@ def check_key(ctx, case):
             _scan_public_object(ctx, cp, 'public.child_public', secrets, hits, stats)
         except Exception as e:
             ctx.refusal('view.child_public:%s' % type(e).__name__)
+        # keys asked from the PRIVATE object with the BIP32 notation for public derivation ('M/...'): a public key
+        # of that path or a refusal (hardened steps), never the private key of the path
+        for ppath in ([0, 1], [0 | HARD], [44 | HARD, 0 | HARD, 0 | HARD]):
+            try:
+                _add_path(secrets, xk, ppath, 'subject')
+            except ValueError:
+                continue
+            try:
+                sk = k.subkey_for_path('M/' + _fmt_path(ppath))
+            except Exception as e:
+                ctx.klass('view.subkey_M_path.refused')
+                continue
+            ctx.klass('view.subkey_M_path.returned')
+            pubs.append(sk)
+            _scan_public_object(ctx, sk, 'subkey_for_path(M/%s)' % _fmt_path(ppath), secrets, hits, stats)
     for kname, v in stats.items():
         ctx.klass('walk.' + kname, v)
 
